@@ -5,7 +5,7 @@ META = {
     "property_id": "C12",
     "technique": "Coq lemmas on the port model (every transition requests the timers of the new state; firing re-arms with the exact interval) + timed-host oracle ok_C12 (timer book, virtual clock, safety and bounded liveness) evaluated in Coq on implementation traces + trace correspondence",
     "category": "proof",
-    "text": "Whole histories: C12_walk_main - for every valid set-up and EVERY valid event list the safety walk of the oracle (walk12: after every call the timers the port states rely on are armed, F22 flagged) never rejects the model's own trace. The bounded-liveness conjuncts (final_ok, dreq_cadence_ok) are evaluated on traces only. Proved on the model for every state and configuration: the announce receipt timeout yields MASTER with announce/sync timers due at once (LISTENING with the receipt timer for slave-only instances; a faulty port stays faulty with the timer re-armed); Sync/Announce emission re-arms the timer with exactly the configured interval and keeps the port master (so emissions continue at the configured cadence); an E2E slave re-arms the delay request timer; BMCA transitions to SLAVE / MASTER carry the timer requests of the new state. The stuck state F22 is exhibited by a kernel-evaluated model run (theorem C12_timer_sane_refuted) and is a recorded known finding. History level: a simulated host that obeys the timer actions continues arbitrary prefixes with silence, with a steady better master, or both; the oracle ok_C12 keeps the timer book and a virtual clock and checks after every call that the timers the port state relies on are armed, and at the end of a silent tail (longer than the stated bound) that every eligible port is MASTER and its last Announce/Sync emissions are exactly one interval apart; Delay_Req cadence below two intervals.",
+    "text": "Whole histories: C12_walk_main - for every valid set-up and EVERY valid event list the safety walk of the oracle (walk12: after every call the timers the port states rely on are armed, F22 flagged) never rejects the model's own trace. The bounded-liveness conjuncts (final_ok, dreq_cadence_ok) are evaluated on traces only; their logic is proved for every history: C12_silence_settles (from any reachable state, silent events with enough BMCA runs for four announce intervals empty every foreign-master list and lapse every multiport block), C12_settled_step / C12_settled_run / C12_settled_reach_master (from then on MASTER stays MASTER, a BMCA run makes every port MASTER that is neither FAULTY nor LISTENING, an announce receipt timeout makes every non-faulty port MASTER), C12_announce_gap / C12_sync_gap / C12_delay_request_gap (between two firings of the announce / sync / delay request timer of a port that stays master / slave of the same master nothing touches that timer, so an obedient next firing comes one configured interval later, resp. at most two delay request intervals later: C12_delay_request_duration_bound); what stays trace-only is the arithmetic of the obedient host's schedule. Proved on the model for every state and configuration: the announce receipt timeout yields MASTER with announce/sync timers due at once (LISTENING with the receipt timer for slave-only instances; a faulty port stays faulty with the timer re-armed); Sync/Announce emission re-arms the timer with exactly the configured interval and keeps the port master (so emissions continue at the configured cadence); an E2E slave re-arms the delay request timer; BMCA transitions to SLAVE / MASTER carry the timer requests of the new state. The stuck state F22 is exhibited by a kernel-evaluated model run (theorem C12_timer_sane_refuted) and is a recorded known finding. History level: a simulated host that obeys the timer actions continues arbitrary prefixes with silence, with a steady better master, or both; the oracle ok_C12 keeps the timer book and a virtual clock and checks after every call that the timers the port state relies on are armed, and at the end of a silent tail (longer than the stated bound) that every eligible port is MASTER and its last Announce/Sync emissions are exactly one interval apart; Delay_Req cadence below two intervals.",
     "design_ref": "DESIGN.md section 6 (C12)",
     "level_note": "Theorems closed under the global context. The bounded-liveness statements over histories (silence_to_master, steady_better_master_to_slave) are not proved in Coq: they are evaluated by the oracle on implementation traces under the simulated host (time exact in ns, RNG scripted). The simulated host mirrors handle_actions of statime-linux/src/main.rs (one deadline per timer, immediate transmit timestamps, optional loss).",
 }
